@@ -1,7 +1,7 @@
 (* C01 - analytic component derivatives equal the true derivatives.  Property theorems only (statements printed by Coq from the libraries Real/*Deriv.v).  DR g t0 p  :=  g t0 = fst p /\ is_derive g t0 (snd p);  every theorem says: along ANY differentiable curve of the inputs, the dual-number evaluation of the component model gives the value and the derivative - hence every partial derivative (C01_dual_number_tangent_is_the_partial_derivative) and, by composition, every chain of components (part 9) *)
 From Coq Require Import Reals ZArith Lra Lia Arith Bool List String.
 From Coquelicot Require Import Coquelicot.
-From OAS Require Import Scalar Rops Sums Deriv Dual DualProofs Drag DragDeriv Stress StressDeriv StressProofs Transfer TransferDeriv Loads LoadsDeriv Functionals FunctionalsDeriv Aero AeroDeriv PG PGDeriv Beam BeamTables BeamDeriv Geom GeomDeriv Misc MiscDeriv MultiSec MultiSecDeriv Wingbox WingboxDeriv Small SmallDeriv.
+From OAS Require Import Scalar Rops Sums Deriv Dual DualProofs Drag DragDeriv Stress StressDeriv StressProofs Transfer TransferDeriv Loads LoadsDeriv Functionals FunctionalsDeriv Aero AeroDeriv PG PGDeriv Beam BeamTables BeamDeriv Geom GeomDeriv Misc MiscDeriv MultiSec MultiSecDeriv Wingbox WingboxDeriv Small SmallDeriv Mphys MphysDeriv.
 Open Scope R_scope.
 
 (* only where both end sections are twisted (wg_twisted): the arccosine twist measure has a kink at zero twist - finding F13 *)
@@ -64,6 +64,22 @@ Theorem C01_PanelForcesSurf :
   DR (fun t : R => panel_forces_surf offset npy (PF t) i j d) t0 (panel_forces_surf offset npy pf i j d).
 Proof. exact panel_forces_surf_DR. Qed.
 Print Assumptions C01_PanelForcesSurf.
+
+(* mphys/demux_surface_mesh.py (matrix-free: the forward product applies the same gather to the perturbation; reverse mode = transpose is C19_mux_demux_adjoint) *)
+Theorem C01_DemuxSurfaceMesh :
+  forall (sizes : list nat) (X : R -> nat -> R) (t0 : R) (x : nat -> R * R) (s k : nat),
+  (forall p : nat, DR (fun t : R => X t p) t0 (x p)) ->
+  DR (fun t : R => demux sizes (X t) s k) t0 (demux sizes x s k).
+Proof. exact demux_DR. Qed.
+Print Assumptions C01_DemuxSurfaceMesh.
+
+(* mphys/mux_surface_forces.py, any number of surfaces *)
+Theorem C01_MuxSurfaceForces :
+  forall (sizes : list nat) (B : R -> nat -> nat -> R) (t0 : R) (b : nat -> nat -> R * R) (p : nat),
+  (forall s k : nat, DR (fun t : R => B t s k) t0 (b s k)) ->
+  DR (fun t : R => mux sizes (B t) p) t0 (mux sizes b p).
+Proof. exact mux_DR. Qed.
+Print Assumptions C01_MuxSurfaceForces.
 
 (* the hypothesis wg_twisted cannot be dropped: at an untwisted section (the default mesh) the twist measure is |twist|, which has no derivative; the code nevertheless reports one (finding F13, replayed on the implementation by the oracle WingboxGeometry.untwisted-sections) *)
 Theorem C01_WingboxGeometry_twist_measure_refuted_at_zero_twist :
